@@ -251,6 +251,14 @@ def run_harness(h, budget_s=20.0, seed=0, native_tries=300):
             if o["status"] != "unsat":
                 fail = dict(o)
                 fail["goal"] = str(d.get("goal"))[:600]
+                if d["status"] == "sat":
+                    # is the `sat` a counterexample over the reals?  not if the query speaks about uninterpreted abstractions (exp, log, stubs ...)
+                    g_ = d.get("goal")
+                    try:
+                        trivially_false = g_ is not None and z3.is_false(z3.simplify(g_))
+                        fail["sat_untrusted"] = bool((not trivially_false) and T.has_uf(list(ob.hyps) + [ob.goal]))
+                    except Exception:
+                        fail["sat_untrusted"] = False
                 fail["solver_output"] = str(d["model"])[:1500] if d.get("model") is not None else d["status"]
                 if d["status"] == "sat" and d.get("model") is not None and h.native_call is not None and ob.kind != "ieee-bump-effective":
                     try:
